@@ -47,8 +47,9 @@ def tla_value(v):
 def _simple(v):
     if isinstance(v, Raw):
         return False
-    return isinstance(v, (bool, int, str)) or (
-        isinstance(v, (set, frozenset)) and all(isinstance(x, (bool, int, str)) for x in v))
+    def atom(x):
+        return isinstance(x, (bool, str)) or (isinstance(x, int) and x >= 0)
+    return atom(v) or (isinstance(v, (set, frozenset)) and all(atom(x) for x in v))
 
 
 class TLCResult(dict):
